@@ -136,3 +136,26 @@ impl Defaults for Dz {
 /// a second aliased group in which the two instantiations of the same generic trait are NEIGHBOURS in name order
 cglue_trait_group!(AliasGrp2, MainT, { Getter<u8> = Ga, Getter<u64> = Gb, Delta });
 cglue_impl_group!(Sg, AliasGrp2, { Getter<u8> = Ga, Getter<u64> = Gb, Delta });
+
+/// an over-aligned type argument of a generic trait (it must not leak into the vtable / object layout)
+#[repr(C, align(16))]
+#[derive(Clone, Copy, PartialEq, Eq, Debug)]
+pub struct A16(pub u64);
+impl Getter<A16> for Sg { fn fetch(&self) -> A16 { A16(self.0 as u64 ^ 0x1616) } }
+
+/// a shared borrowed wrapped return declared BEFORE a mutable one (temporary-storage slots follow declaration order)
+#[cglue_trait]
+pub trait ViewEdit {
+    #[wrap_with_obj_ref(LeafRO)]
+    type V: LeafRO + 'static;
+    #[wrap_with_obj_mut(Leaf)]
+    type E: Leaf + 'static;
+    fn view(&self) -> &Self::V;
+    fn edit(&mut self) -> &mut Self::E;
+}
+impl ViewEdit for Pair {
+    type V = L;
+    type E = L;
+    fn view(&self) -> &L { &self.l }
+    fn edit(&mut self) -> &mut L { &mut self.r }
+}
